@@ -80,3 +80,55 @@ def anchored(pattern: str, flags: int):
     p = parse(pattern, flags)
     items = list(p)
     return bool(items) and items[0][0] == sre_c.AT and items[-1][0] == sre_c.AT
+
+
+def group_shape(pattern: str, flags: int, group: str):
+    """Shape of a named group as a list of items: ('lit', 'x'), ('greedy'|'lazy', min, max, inner shape), ('any',),
+    ('cat', name), ('in', ...) - enough to tell a greedy quoted string from a lazy one."""
+    p = parse(pattern, flags)
+    gidx = p.state.groupdict.get(group)
+    if gidx is None:
+        return None
+
+    def find(seq):
+        for op, av in seq:
+            if op == sre_c.SUBPATTERN:
+                g, _, _, sub = av
+                if g == gidx:
+                    return sub
+                r = find(sub)
+                if r is not None:
+                    return r
+            elif op == sre_c.BRANCH:
+                for alt in av[1]:
+                    r = find(alt)
+                    if r is not None:
+                        return r
+            elif op in (sre_c.MAX_REPEAT, sre_c.MIN_REPEAT):
+                r = find(av[2])
+                if r is not None:
+                    return r
+        return None
+
+    def shape(seq):
+        out = []
+        for op, av in seq:
+            if op == sre_c.LITERAL:
+                out.append(("lit", chr(av)))
+            elif op == sre_c.ANY:
+                out.append(("any",))
+            elif op in (sre_c.MAX_REPEAT, sre_c.MIN_REPEAT):
+                mx = "inf" if av[1] == sre_c.MAXREPEAT else av[1]
+                out.append(("greedy" if op == sre_c.MAX_REPEAT else "lazy", av[0], mx, tuple(shape(av[2]))))
+            elif op == sre_c.IN:
+                out.append(("in", tuple(str(x) for x in av)))
+            elif op == sre_c.SUBPATTERN:
+                out.append(("group", tuple(shape(av[3]))))
+            elif op == sre_c.BRANCH:
+                out.append(("branch", tuple(tuple(shape(a)) for a in av[1])))
+            else:
+                out.append((str(op), str(av)))
+        return out
+
+    sub = find(p)
+    return None if sub is None else shape(sub)
